@@ -1331,6 +1331,12 @@ class Interp(ExprMixin):
                         # the loop variable names an element of a list held in another variable: an in-place update
                         # through the loop variable is an update of that element
                         for v, lst in origins:
+                            if isinstance(lst, tuple):
+                                val = b.env.get(v)
+                                if pos < len(lst) and before[v] is not None and val is not None and val != before[v] and _rooted(val, before[v]) \
+                                        and b.env.get(lst[pos]) == before[v]:
+                                    b.env[lst[pos]] = val
+                                continue
                             val, seq = b.env.get(v), b.env.get(lst)
                             if before[v] is not None and val is not None and val != before[v] and _rooted(val, before[v]) \
                                     and isinstance(seq, Tup) and seq.kind == 'list' and pos < len(seq) and seq.items[pos] == before[v]:
@@ -1619,7 +1625,11 @@ def _loop_origins(s):
         return [(t.id, it.id)]
     if isinstance(it, ast.Call) and isinstance(it.func, ast.Name) and not it.keywords and isinstance(t, ast.Tuple):
         if it.func.id == 'zip' and len(it.args) == len(t.elts):
-            return [(e.id, a.id) for e, a in zip(t.elts, it.args) if isinstance(e, ast.Name) and isinstance(a, ast.Name)]
+            out = [(e.id, a.id) for e, a in zip(t.elts, it.args) if isinstance(e, ast.Name) and isinstance(a, ast.Name)]
+            # zip((a, b), ...): the loop variable names the variable a, then b
+            out += [(e.id, tuple(x.id for x in a.elts)) for e, a in zip(t.elts, it.args) if isinstance(e, ast.Name)
+                    and isinstance(a, (ast.Tuple, ast.List)) and a.elts and all(isinstance(x, ast.Name) for x in a.elts)]
+            return out
         if it.func.id == 'enumerate' and len(it.args) == 1 and len(t.elts) == 2 and isinstance(t.elts[1], ast.Name) \
                 and isinstance(it.args[0], ast.Name):
             return [(t.elts[1].id, it.args[0].id)]
